@@ -199,10 +199,10 @@ class Prog:
             elif k == "if":
                 self._if(s, ind, where, "if")
             elif k == "while":
-                self._emit(ind, f"while {rx(s.a[0])}:", s, t)
+                self._emit(ind, f"while {rx(s.a[0])}:", s, t + ("-with-break" if _has_break(s.a[1]) else ""))
                 self._block(s.a[1], ind + 1, where)
             elif k == "for":
-                self._emit(ind, f"for {s.a[0]} in range({rx(s.a[1])}):", s, t)
+                self._emit(ind, f"for {s.a[0]} in range({rx(s.a[1])}):", s, t + ("-with-break" if _has_break(s.a[2]) else ""))
                 self._block(s.a[2], ind + 1, where)
             elif k == "ret":
                 self._emit(ind, f"return {rx(s.a[0])}", s, t)
@@ -499,23 +499,33 @@ class Interp:
 
 
 def frontier(res: Result, root: int, checked: set[int], need=None):
-    """Missing lines that an included line (or the root) directly depends on: [(missing_line, kind, from_line)]."""
+    """The first missing line on every dependence path from the root that otherwise runs through checked lines:
+    [(missing_line, kind, from_line)].  Lines behind a missing line are consequences and are not reported."""
     need = res.need if need is None else need
-    missing = need - checked
-    out, seen = [], set()
-    for frm in sorted((need & checked) | {root}):
+    out, seen, stack = [], {root}, [root]
+    while stack:
+        frm = stack.pop()
         for to, kind in sorted(res.direct.get(frm, {}).items()):
-            if to in missing and to not in seen:
-                seen.add(to)
+            if to not in need or to in seen:
+                continue
+            seen.add(to)
+            if to in checked:
+                stack.append(to)
+            else:
                 out.append((to, kind, frm))
-    if not out and missing:
+    missing = need - checked
+    if not out and missing:  # cannot happen when `direct` covers `need`; keep the verdict, lose only the attribution
         out = [(min(missing), "data", None)]
-    return out
+    return sorted(out)
 
 
 def mechanism(prog: Prog, line: int, kind: str, frm=None) -> str:
     tag = prog.tag.get(line, "unknown")
-    if kind == "data" and frm is not None and prog.tag.get(frm) == "while" and tag in ("local-assign", "global-store", "attribute-store"):
+    if frm is not None and prog.tag.get(frm) == "subscript-store":
+        # the store line is a checked line for another reason (e.g. the loop's JUMP_BACKWARD carries its line number),
+        # but the store instruction itself was not followed
+        return "missing-dependence:dependences-of-subscript-store"
+    if kind == "data" and frm is not None and prog.tag.get(frm, "").startswith("while") and tag in ("local-assign", "global-store", "attribute-store"):
         # the predicate of a later iteration reads what the loop body defined
         return f"missing-dependence:loop-carried:{tag}-read-by-while-predicate"
     if kind == "control":
@@ -771,6 +781,16 @@ class _Gen:
         return Func("f", ["a", "b"], body, writes_global=_writes_global(body))
 
 
+def _has_break(body):
+    """A `break` that belongs to this loop (not to a nested loop)."""
+    for s in body:
+        if s.k == "break":
+            return True
+        if s.k == "if" and (_has_break(s.a[1]) or _has_break(s.a[2])):
+            return True
+    return False
+
+
 def _writes_global(body):
     for s in body:
         if s.k in ("gset", "gaug"):
@@ -826,7 +846,7 @@ def directed() -> list[tuple[Prog, list[tuple[int, int]]]]:
         Assign("x1", C(0)),
         If(Cmp(">", V("a"), C(3)), [Assign("x1", C(10))],
            [If(Cmp(">", V("b"), C(3)), [Assign("x1", C(20))], [Assign("x1", Bin("+", V("a"), V("b")))], elif_=True)]),
-        Assign("x3", C(9)), Assign("z", Bin("+", V("x1"), C(1))), Ret(V("z"))))
+        Assign("x3", C(9)), Assign("z", Bin("+", V("x1"), C(1))), Ret(V("z"))), inputs=((1, 5), (2, 2), (3, 4)))
     add("nested-if", _entry(
         Assign("x1", C(0)), Assign("x2", Bin("-", V("a"), V("b"))),
         If(Cmp(">", V("x2"), C(0)), [If(Cmp("<", V("b"), C(3)), [Assign("x1", V("x2"))], [Assign("x1", C(4))])], [Assign("x4", C(1))]),
